@@ -136,14 +136,19 @@ def mutate_and_compare(root, warm_first=True):
     try:
         if warm_first:
             queries(root)                              # warm; otherwise the memos are exactly what the pickle carried
+        def attempt(fn):
+            try:                       # an edit may legitimately raise (e.g. unlink() meets a link that lost an end): what matters
+                fn()                   # is that cached and uncached answers agree afterwards
+            except Exception:  # noqa: BLE001
+                pass
         if links:
             e = links[0]
-            e.v2 = e.v1                                  # retarget: the edge becomes a self-loop
+            attempt(lambda: setattr(e, "v2", e.v1))      # retarget: the edge becomes a self-loop
         if len(links) > 1:
             a, b = links[1].vertices
-            explicit.unlink(a, b)
+            attempt(lambda: explicit.unlink(a, b))
         if len(verts) > 1:
-            explicit.link_directed(verts[0], verts[-1])
+            attempt(lambda: explicit.link_directed(verts[0], verts[-1]))
         cached = queries(root)
         Vertex.NEIGHBOR_CACHING = False
         truth = queries(root)
